@@ -158,6 +158,13 @@ impl TreeNodeWithPreviousValue {
         }
     }
 
+    /// Verification hook (compiled only with `--cfg akd_verif`): public wrapper around
+    /// [Self::determine_node_to_get] for an external harness.
+    #[cfg(akd_verif)]
+    pub fn verif_determine_node_to_get(&self, target_epoch: u64) -> Result<TreeNode, StorageError> {
+        self.determine_node_to_get(target_epoch)
+    }
+
     /// Construct a TreeNode with "previous" value where the
     /// previous value is None. This is useful for the first
     /// time a node appears in the directory data layer.
